@@ -62,7 +62,7 @@ func main() {
 			"supply = balances+escrows+common pool+governance deposits+carried fees, share totals = sum of delegations (both index directions), supply non-increasing and decreasing exactly by burn events; in 'taps' mode the same sum (plus the in-block fee accumulator) is checked after every transaction and application step; " +
 			"non-trivial = history with >=1 slash, >=1 debonding completion, non-zero fees and >=3 epoch transitions",
 		Cases: func(r *evid.Run) []chainsim.Case {
-			cs := chainsim.StdCases(r.Seed, r.Pick(96, 2400), r.Pick(60, 120), []string{"hostile", "default", "hostile", "registry"})
+			cs := chainsim.StdCases(r.Seed, r.Pick(192, 2400), r.Pick(60, 120), []string{"hostile", "default", "hostile", "registry"})
 			for i := range cs {
 				if !r.Quick() || i%4 == 0 {
 					cs[i].Mode = "taps"
